@@ -373,16 +373,20 @@ def _install():
             return flatten(out), n
 
     shim = ReShim()
-    pre._re = shim
-    classes._re = shim
+    # every module-level name of the two modules that is bound to the `re` module (`import re as _re`, `import re`, ...)
+    # is rebound to the shim; a module that imports single functions (`from re import compile`) keeps CrossHair's stock model
+    for mod in (pre, classes):
+        for nm, val in list(vars(mod).items()):
+            if val is re:
+                setattr(mod, nm, shim)
     classes.set = NdSet
 
     P = pre.Pregex
-    orig_escape = P._Pregex__escape
-
-    def esc(pattern):
-        return flatten(orig_escape(pattern))
-    P._Pregex__escape = staticmethod(esc)
+    orig_escape = getattr(P, "_Pregex__escape", None)
+    if orig_escape is not None:
+        def esc(pattern):
+            return flatten(orig_escape(pattern))
+        P._Pregex__escape = staticmethod(esc)
     orig_init = P.__init__
 
     def init(self, pattern="", escape=True):
